@@ -25,7 +25,7 @@ func reqField(v ssa.Value, names ...string) bool {
 			return false
 		}
 		st := derefStruct(fa.X.Type())
-		if st == nil || st.Field(fa.Field).Name() != names[i] {
+		if st == nil || fname(st.Field(fa.Field)) != names[i] {
 			return false
 		}
 		cur = fa.X
@@ -71,7 +71,7 @@ func runC09(r *Run, verifDir string) {
 			id := callID(&x.Call)
 			if id.pkg == "slices" && id.name == "Contains" && dc.outcome && reqField(x.Call.Args[1], "Header", "ProtocolVersion") {
 				if u, ok := x.Call.Args[0].(*ssa.UnOp); ok {
-					if _, fld, ok := fieldAddrOf(u.X); ok && fld.Name() == "supportedVersions" {
+					if _, fld, ok := fieldAddrOf(u.X); ok && fname(fld) == "supportedVersions" {
 						verOK = true
 					}
 				}
@@ -234,7 +234,7 @@ func runC09(r *Run, verifDir string) {
 		allInstrs(hme, func(in ssa.Instruction) {
 			switch x := in.(type) {
 			case *ssa.Store:
-				if _, fld, ok := fieldAddrOf(x.Addr); ok && fld.Name() == "BatchCount" {
+				if _, fld, ok := fieldAddrOf(x.Addr); ok && fname(fld) == "BatchCount" {
 					if k, ok := constIntVal(x.Val); ok && k == 1 {
 						one = true
 					}
@@ -345,10 +345,10 @@ func runC09(r *Run, verifDir string) {
 		if !ok || typeName(st.Addr.(*ssa.FieldAddr).X.Type()) != "ResponseHeader" {
 			return
 		}
-		if fld.Name() == "BatchCount" && reqField(st.Val, "Header", "BatchCount") {
+		if fname(fld) == "BatchCount" && reqField(st.Val, "Header", "BatchCount") {
 			echoCount = true
 		}
-		if fld.Name() == "ProtocolVersion" && reqField(st.Val, "Header", "ProtocolVersion") {
+		if fname(fld) == "ProtocolVersion" && reqField(st.Val, "Header", "ProtocolVersion") {
 			echoVer = true
 		}
 	})
@@ -374,11 +374,11 @@ func runC09(r *Run, verifDir string) {
 			if !ok || !recvReq(fa.X) {
 				return
 			}
-			src := derefStruct(fa.X.Type()).Field(fa.Field).Name()
-			if fld.Name() == "Operation" && src == "Operation" {
+			src := fname(derefStruct(fa.X.Type()).Field(fa.Field))
+			if fname(fld) == "Operation" && src == "Operation" {
 				op = true
 			}
-			if fld.Name() == "UniqueBatchItemID" && src == "UniqueBatchItemID" {
+			if fname(fld) == "UniqueBatchItemID" && src == "UniqueBatchItemID" {
 				id = true
 			}
 		})
@@ -400,7 +400,7 @@ func runC09(r *Run, verifDir string) {
 		if hb := p.Func("kmipserver", "", "handleBatchItemError"); hb != nil {
 			allInstrs(hb, func(in ssa.Instruction) {
 				if st, ok := in.(*ssa.Store); ok {
-					if _, fld, ok := fieldAddrOf(st.Addr); ok && (fld.Name() == "Operation" || fld.Name() == "UniqueBatchItemID") {
+					if _, fld, ok := fieldAddrOf(st.Addr); ok && (fname(fld) == "Operation" || fname(fld) == "UniqueBatchItemID") {
 						clobber = true
 					}
 				}
@@ -521,7 +521,7 @@ func runC09(r *Run, verifDir string) {
 			if !ok {
 				return
 			}
-			if _, fld, ok := fieldAddrOf(st.Addr); ok && fld.Name() == "ResultStatus" {
+			if _, fld, ok := fieldAddrOf(st.Addr); ok && fname(fld) == "ResultStatus" {
 				if k, ok := constIntVal(st.Val); ok && k == failedConst {
 					for _, dc := range dominatingConds(st.Block()) {
 						if dc.cond == ssa.Value(stopped) && dc.outcome {
@@ -542,7 +542,7 @@ func runC09(r *Run, verifDir string) {
 		var st *ssa.Store
 		allInstrs(hb, func(in ssa.Instruction) {
 			if s, ok := in.(*ssa.Store); ok {
-				if _, fld, ok := fieldAddrOf(s.Addr); ok && fld.Name() == "ResultStatus" {
+				if _, fld, ok := fieldAddrOf(s.Addr); ok && fname(fld) == "ResultStatus" {
 					if k, ok := constIntVal(s.Val); ok && k == failedConst {
 						st = s
 					}
@@ -617,7 +617,7 @@ func runC15(r *Run, verifDir string) {
 				al = x
 			}
 		case *ssa.Store:
-			if _, fld, ok := fieldAddrOf(x.Addr); ok && fld.Name() == "idPlaceholder" {
+			if _, fld, ok := fieldAddrOf(x.Addr); ok && fname(fld) == "idPlaceholder" {
 				setsPlaceholder = true
 			}
 		case *ssa.Call:
@@ -740,7 +740,7 @@ func runC15(r *Run, verifDir string) {
 				// request contexts derive from newBatchContext: a store whose value comes from it is forbidden
 				if c, ok := st.Val.(*ssa.Call); ok && callID(&c.Call).is(srvPath, "", "newBatchContext") {
 					okCtxStore = false
-					r.Bad("C15.O2", fnKey(fn)+"/request-ctx-stored", st.Pos(), "the request context is stored in %s.%s", owner, fld.Name())
+					r.Bad("C15.O2", fnKey(fn)+"/request-ctx-stored", st.Pos(), "the request context is stored in %s.%s", owner, fname(fld))
 				}
 			}
 		})
@@ -758,7 +758,7 @@ func runC15(r *Run, verifDir string) {
 				return
 			}
 			st := derefStruct(fa.X.Type())
-			if st == nil || st.Field(fa.Field).Name() != "idPlaceholder" {
+			if st == nil || fname(st.Field(fa.Field)) != "idPlaceholder" {
 				return
 			}
 			nAcc++
